@@ -463,6 +463,23 @@ HelperCase ==
          TupE([j \in 1..Len(HelperNames) |-> V(HelperNames[j])])>>,
        TupV([j \in 1..Len(HelperNames) |-> IntV(70 + j)]))
 
+\* ... and a user variable of such a name used INSIDE the operand / the callback of an operator means the user's variable
+\* (a run-time binding), whatever the operator's own code has bound under that name while the operand is evaluated
+HelperOperandCases ==
+  {Case("helper-name-in-operand-" \o nm,
+        <<Set(nm, H(42)), Set("u", Hide(WMulti(<<WInt, WStr>>), S(<<115>>))),
+          Set("r1", CollectE(TFilterE(IterE(ArrE(<<V(nm), V("u"), I(1)>>)), WInt))),
+          Set("r2", CollectE(MapE(IterE(ArrE(<<V(nm), I(1)>>)), FnE(<<P("x", WInt)>>, WInt, <<Ret(Bin("+", V("x"), V(nm)))>>)))),
+          Set("r3", CollectE(FilterE(IterE(ArrE(<<V(nm), I(1)>>)), FnE(<<P("x", WInt)>>, WBool, <<Ret(Bin("==", V("x"), V(nm)))>>)))),
+          Set("r4", ReduceE(IterE(ArrE(<<V(nm)>>)), V(nm), AddF)),
+          Set("r5", PartE(IterE(ArrE(<<V(nm), I(1)>>)), FnE(<<P("x", WInt)>>, WBool, <<Ret(Bin("==", V("x"), V(nm)))>>))),
+          Set("r6", RedE("$+", "int", IterE(ArrE(<<V(nm), V(nm)>>)))),
+          Set("acc", MutE(WInt, I(0))), For("e", IterE(ArrE(<<V(nm), I(1)>>)), Block(<<Asg("+=", V("acc"), Bin("+", V("e"), V(nm)))>>)),
+          TupE(<<V("r1"), V("r2"), V("r3"), V("r4"), TupAt(V("r5"), 0), V("r6"), Deref(V("acc"))>>)>>,
+        TupV(<<ArrV(TInt, <<IntV(42), IntV(1)>>), ArrV(TInt, <<IntV(84), IntV(43)>>), ArrV(TInt, <<IntV(42)>>), IntV(84),
+               ArrV(TInt, <<IntV(42)>>), IntV(84), IntV(127)>>))
+     : nm \in ({HelperNames[j] : j \in 1..Len(HelperNames)} \cup {"iter", "item", "element", "acc0", "it", "f", "p"}) \ {"acc", "e", "u", "x", "a", "b"}}
+
 \* ---------------------------------------------------------------- (E) modules
 SV(fs) == StructV(fs)
 ModCases == {
@@ -502,11 +519,43 @@ ModCases == {
   Case("import-shared-file-A", <<Set("x", I(5)), Set("m", ImportE("shared.sl", <<Set("y", Bin("*", V("x"), I(2)))>>)), Field(V("m"), "y")>>, IntV(10)),
   Case("import-shared-file-B", <<Set("x", I(7)), Set("m", ImportE("shared.sl", <<Set("y", Bin("*", V("x"), I(2)))>>)), Field(V("m"), "y")>>, IntV(14)),
   Case("import-shared-file-C", <<Set("x", H(9)), Set("m", ImportE("shared.sl", <<Set("y", Bin("*", V("x"), I(2)))>>)), Field(V("m"), "y")>>, IntV(18)),
-  Case("mod-destruct", <<Set("m", ModE(<<Destruct(<<"p", "q">>, TupE(<<H(1), H(2)>>))>>)), V("m")>>, SV("p" :> IntV(1) @@ "q" :> IntV(2)))
+  Case("mod-destruct", <<Set("m", ModE(<<Destruct(<<"p", "q">>, TupE(<<H(1), H(2)>>))>>)), V("m")>>, SV("p" :> IntV(1) @@ "q" :> IntV(2))),
+  \* a module (or imported file) whose top level holds STATEMENTS - every kind of loop, type tests, a match, a block, iterator
+  \* operators: whatever these use internally, the module yields exactly the names its top level declares
+  Case("mod-with-for", <<Set("m", ModE(<<Set("acc", MutE(WInt, I(0))), For("e", IterE(ArrE(<<H(1), H(2)>>)), Block(<<Asg("+=", V("acc"), V("e"))>>)),
+                                          Set("total", Deref(V("acc")))>>)),
+                         TupE(<<Field(V("m"), "total"), Deref(Field(V("m"), "acc"))>>)>>, TupV(<<IntV(3), IntV(3)>>)),
+  Case("mod-with-for-fields", <<Set("m", ModE(<<Set("k", H(1)), For("e", IterE(ArrE(<<H(1), H(2)>>)), Block(<<Set("z", V("e"))>>)), Set("j", H(2))>>)), V("m")>>,
+       SV("k" :> IntV(1) @@ "j" :> IntV(2))),
+  Case("mod-with-for-inside-for", <<Set("r", MutE(WAny, Unit)),
+                                    For("o", IterE(ArrE(<<H(5), H(6)>>)),
+                                        Block(<<Set("m", ModE(<<Set("k", V("o")), For("e", IterE(ArrE(<<H(1)>>)), Block(<<Set("z", V("e"))>>))>>)),
+                                                Asg("=", V("r"), V("m"))>>)),
+                                    Deref(V("r"))>>, SV("k" :> IntV(6))),
+  Case("mod-with-statements", <<Set("m", ModE(<<Set("k", MutE(WInt, I(0))),
+                                                While(Bin("<", Deref(V("k")), I(2)), Block(<<Asg("+=", V("k"), I(1)), Set("w", I(0))>>)),
+                                                Loop(Block(<<Set("l", I(0)), Break>>)),
+                                                IfSet("t", WInt, Hide(WMulti(<<WInt, WStr>>), I(1)), Block(<<Set("u", V("t"))>>), NoneV),
+                                                WhileSet("ws", WInt, Hide(WMulti(<<WInt, WStr>>), S(<<97>>)), Block(<<Set("v", I(0))>>)),
+                                                Match(H(1), <<ArmTy("mt", WInt, Block(<<Set("mu", V("mt"))>>))>>),
+                                                Block(<<Set("b", I(0))>>),
+                                                Set("n", RedE("$+", "int", MapE(IterE(ArrE(<<H(1), H(2)>>)), DblF))),
+                                                Set("p", PartE(IterE(ArrE(<<H(1), H(5)>>)), GtF))>>)),
+                                TupE(<<Deref(Field(V("m"), "k")), Field(V("m"), "n")>>)>>, TupV(<<IntV(2), IntV(6)>>)),
+  Case("mod-with-statements-fields", <<Set("m", ModE(<<Set("k", H(7)),
+                                                       For("e", IterE(ArrE(<<H(1)>>)), Block(<<>>)),
+                                                       IfSet("t", WInt, Hide(WMulti(<<WInt, WStr>>), I(1)), Block(<<Set("u", V("t"))>>), NoneV),
+                                                       Match(H(1), <<ArmTy("mt", WInt, Block(<<Set("mu", V("mt"))>>))>>),
+                                                       Set("n", CollectE(TFilterE(IterE(ArrE(<<H(1), H(2)>>)), WInt)))>>)), V("m")>>,
+       SV("k" :> IntV(7) @@ "n" :> ArrV(TInt, <<IntV(1), IntV(2)>>))),
+  Case("import-with-for", <<Set("m", ImportE("m11.sl", <<Set("acc", MutE(WInt, I(0))), For("e", IterE(ArrE(<<H(1), H(2)>>)), Block(<<Asg("+=", V("acc"), V("e"))>>)),
+                                                          Set("total", Deref(V("acc")))>>)), Field(V("m"), "total")>>, IntV(3)),
+  Case("import-with-for-fields", <<Set("m", ImportE("m12.sl", <<Set("k", H(1)), For("e", IterE(ArrE(<<H(1), H(2)>>)), Block(<<Set("z", V("e"))>>))>>)), V("m")>>,
+       SV("k" :> IntV(1)))
 }
 
 \* int / bool / struct values cannot share one TLC set: keep the suites in separate sequences
-CaseSeq == SetToSeq(ShadowCases) \o SetToSeq(SoloCases) \o SetToSeq(LateCases) \o SetToSeq(RedeclCases) \o SetToSeq(CapturedCases) \o SetToSeq(CaptureCases) \o SetToSeq(DeepCases) \o SetToSeq(RecCases) \o SetToSeq(NoisyCases) \o <<HelperCase>> \o SetToSeq(ModCases)
+CaseSeq == SetToSeq(ShadowCases) \o SetToSeq(SoloCases) \o SetToSeq(LateCases) \o SetToSeq(RedeclCases) \o SetToSeq(CapturedCases) \o SetToSeq(CaptureCases) \o SetToSeq(DeepCases) \o SetToSeq(RecCases) \o SetToSeq(NoisyCases) \o <<HelperCase>> \o SetToSeq(HelperOperandCases) \o SetToSeq(ModCases)
 N == Len(CaseSeq)
 Fuel == 3000
 Out(i) == Outcome(Run(CaseSeq[i].prog, Fuel))
